@@ -240,6 +240,7 @@ type Ctx struct {
 	Seed    uint64
 	Tier    string
 	Oracle  string
+	MOracle string
 	Workers int
 	Budget  float64 // multiplier on case counts (4 when a tie is broken)
 }
